@@ -924,8 +924,10 @@ class GroupBy:
         # Now combine the results for each value in value_list to get one result per value
         individual_results = []
         # Some functions like 'first' and 'last' don't have nan versions
-        if func_name in ("size", "count", "sum_squares"):
-            reducer = numba_funcs.ScalarFuncs.nansum
+        if func_name in ("size", "count", "sum_squares", "sum"):
+            # per-chunk sums and counts are never null (a chunk without values gives 0), so a
+            # NaN among them is a real NaN (inf - inf) which the merge must not skip
+            reducer = numba_funcs.ScalarFuncs.sum
         elif hasattr(numba_funcs.ScalarFuncs, f"nan{func_name}"):
             reducer = getattr(numba_funcs.ScalarFuncs, f"nan{func_name}")
         else:
